@@ -314,7 +314,7 @@ def build_tau_energy(explicit):
 
         tb = v["tables"]
         if isinstance(tb, SymTables):
-            t = object.__new__(Taus)
+            t = harness.partial(Taus)
             t.tau_cdf_grid = GridStub("cdf", ["log_e_nu", "beta_rad", "e_tau_frac"])
         else:
             t = fresh_taus(tb.version)
